@@ -62,6 +62,7 @@ type CallerSpec struct {
 	StartUs   int64 `json:"su"` // start delay
 	SlowMs    int   `json:"sl"` // the server holds the response of this request for so long
 	Async     bool  `json:"as"` // use SendRequestAsync (no timer of its own: bounded by the context only)
+	Pool      int   `json:"pl"` // which store (connection pool) the call goes to
 	Long      bool  `json:"lg"` // "no deadline": sync calls get a 30 s time-out, async calls a context without deadline;
 	// such a call must complete in the scenario's drain phase (finite watchdog)
 }
@@ -70,6 +71,7 @@ type Fault struct {
 	AtUs int64  `json:"at"`
 	Kind string `json:"k"` // kill (one stream of host), killall, restart, recvfail, sendfail, initfail, close, closeaddr, sendpanic
 	Host int    `json:"h"`
+	Pool int    `json:"pl"`
 	N    int    `json:"n"` // how many times (recvfail/sendfail/initfail) or down time in ms (restart)
 }
 
@@ -90,6 +92,8 @@ type Scenario struct {
 	Dup       float64      `json:"dup"`
 	Unknown   float64      `json:"unknown"`
 	Blackhole float64      `json:"blackhole"`
+	Pools     int          `json:"pools"`   // number of stores (each its own server, address and connection pool); 0 = 1
+	NoBatch   bool         `json:"nobatch"` // MaxBatchSize = 0: the non-batch path (one unary call per request)
 }
 
 // ---------------------------------------------------------------- event log
@@ -154,6 +158,7 @@ type server struct {
 	g       *grpc.Server
 	addr    string
 	drain   atomic.Bool // answer everything immediately, no faults (end of scenario)
+	bad     atomic.Int64 // number of response batches still to be sent with one id lacking its response
 }
 
 func (s *server) rnd(f func(r *rand.Rand)) { s.mu.Lock(); f(s.rng); s.mu.Unlock() }
@@ -210,6 +215,52 @@ func parsePay(b []byte) int64 {
 		return -3
 	}
 	return v
+}
+
+// unary handlers (non-batch path): echo after the caller's hold time, or fail when the call is cancelled
+func (s *server) hold(ctx context.Context, pay int64) error {
+	slow := 0
+	if pay >= 0 && int(pay) < len(s.sc.Callers) {
+		slow = s.sc.Callers[pay].SlowMs
+	}
+	if slow <= 0 || s.drain.Load() {
+		return nil
+	}
+	t := time.NewTimer(time.Duration(slow) * time.Millisecond)
+	defer t.Stop()
+	for {
+		select {
+		case <-t.C:
+			return nil
+		case <-ctx.Done():
+			return ctx.Err()
+		case <-time.After(5 * time.Millisecond):
+			if s.drain.Load() {
+				return nil
+			}
+		}
+	}
+}
+
+func (s *server) RawGet(ctx context.Context, req *kvrpcpb.RawGetRequest) (*kvrpcpb.RawGetResponse, error) {
+	if err := s.hold(ctx, parsePay(req.GetKey())); err != nil {
+		return nil, err
+	}
+	return &kvrpcpb.RawGetResponse{Value: req.GetKey()}, nil
+}
+
+func (s *server) KvGet(ctx context.Context, req *kvrpcpb.GetRequest) (*kvrpcpb.GetResponse, error) {
+	if err := s.hold(ctx, parsePay(req.GetKey())); err != nil {
+		return nil, err
+	}
+	return &kvrpcpb.GetResponse{Value: req.GetKey()}, nil
+}
+
+func (s *server) Coprocessor(ctx context.Context, req *coprocessor.Request) (*coprocessor.Response, error) {
+	if err := s.hold(ctx, parsePay(req.GetData())); err != nil {
+		return nil, err
+	}
+	return &coprocessor.Response{Data: append([]byte(nil), req.GetData()...)}, nil
 }
 
 func (s *server) BatchCommands(ss tikvpb.Tikv_BatchCommandsServer) error {
@@ -352,6 +403,14 @@ func (s *server) responder(ss tikvpb.Tikv_BatchCommandsServer, st *srvStream, do
 		if len(resp.RequestIds) == 0 {
 			continue
 		}
+		if !draining && len(resp.RequestIds) == len(resp.Responses) && s.bad.Load() > 0 && s.bad.Add(-1) >= 0 {
+			// malformed batch: the last id comes without its response; the proper response follows later
+			n := len(resp.RequestIds) - 1
+			st.mu.Lock()
+			st.pend = append(st.pend, item{resp.RequestIds[n], resp.Responses[n]})
+			st.mu.Unlock()
+			resp.Responses = resp.Responses[:n]
+		}
 		if err := ss.Send(resp); err != nil {
 			return
 		}
@@ -412,6 +471,10 @@ func (s *server) killStreams(host string, all bool) {
 // ---------------------------------------------------------------- client side interceptor
 
 type injector struct {
+	suffix   string // "" for store 0, "@k" for store k: appended to the tag of every event of this pool
+	roundMu  sync.Mutex
+	lastRnd  string
+	srv      *server
 	refMu    sync.Mutex
 	refs     map[string]client.VerifEntryRef
 	sc       int64
@@ -425,6 +488,81 @@ type injector struct {
 	recvFail []atomic.Int64
 	initFail []atomic.Int64
 	rvCount  atomic.Int64
+}
+
+// ev logs an event of this pool.
+func (in *injector) ev(f string, a ...interface{}) {
+	if i := strings.IndexByte(f, '\t'); i > 0 {
+		f = f[:i] + in.suffix + f[i:]
+	} else {
+		f += in.suffix
+	}
+	evs(in.sc, f, a...)
+}
+
+// evf logs an event whose text (a table snapshot) is computed while the log is locked, so that the snapshot is
+// ordered with the other events.
+func (in *injector) evf(mk func() string) {
+	outMu.Lock()
+	if activeSc == in.sc {
+		f := mk()
+		if i := strings.IndexByte(f, '\t'); i > 0 {
+			f = f[:i] + in.suffix + f[i:]
+		}
+		out.WriteString(f)
+		out.WriteByte('\n')
+	}
+	outMu.Unlock()
+}
+
+func (in *injector) handle() interface{} {
+	h := in.pool.Load()
+	if h == nil {
+		if p := client.VerifPool(in.rpc, in.addr); p != nil {
+			in.pool.Store(p)
+			h = p
+		}
+	}
+	return h
+}
+
+// dumpRound logs the builder state of the current buildWithLimit round once (send loop goroutine only).
+func (in *injector) dumpRound() {
+	h := in.handle()
+	if h == nil {
+		return
+	}
+	r := client.VerifRoundDump(h)
+	if len(r.Built) == 0 {
+		return
+	}
+	sort.Slice(r.Built, func(i, j int) bool { return r.Built[i].ID < r.Built[j].ID })
+	key := fmt.Sprintf("%d/%d", r.IDAlloc, r.Built[0].ID)
+	in.roundMu.Lock()
+	dup := key == in.lastRnd
+	in.lastRnd = key
+	in.roundMu.Unlock()
+	if dup {
+		return
+	}
+	var b, l strings.Builder
+	for i, it := range r.Built {
+		if i > 0 {
+			b.WriteByte(',')
+		}
+		fmt.Fprintf(&b, "%d:%d:%d", it.ID, it.Caller, in.hostIdx[it.Host])
+	}
+	for i, it := range r.Left {
+		if i > 0 {
+			l.WriteByte(',')
+		}
+		c := 0
+		if it.Canceled {
+			c = 1
+		}
+		fmt.Fprintf(&l, "%d:%d:%d", it.Caller, it.Pri, c)
+	}
+	in.ev("ROUND\t%d\tbuilt=%s\tleft=%s", r.IDAlloc, b.String(), l.String())
 }
 
 func (in *injector) tabOf(conn string, host string) string {
@@ -508,17 +646,20 @@ func (in *injector) intercept(ctx context.Context, desc *grpc.StreamDesc, cc *gr
 		conn = v[0]
 	}
 	hi := in.hostIdx[host]
+	if h := in.handle(); h != nil && !client.VerifStreamExists(h, conn, host) {
+		in.dumpRound() // initBatchClient inside send(): we are on the send loop goroutine
+	}
 	if in.initFail[hi].Load() > 0 && in.initFail[hi].Add(-1) >= 0 {
-		evs(in.sc, "NSF\t%s\t%d\tinjected", conn, hi)
+		in.ev("NSF\t%s\t%d\tinjected", conn, hi)
 		return nil, errors.New("verif-initfail")
 	}
 	cs, err := streamer(ctx, desc, cc, method, opts...)
 	if err != nil {
-		evs(in.sc, "NSF\t%s\t%d\treal", conn, hi)
+		in.ev("NSF\t%s\t%d\treal", conn, hi)
 		return nil, err
 	}
 	inc := in.incs.Add(1)
-	evs(in.sc, "NS\t%s\t%d\t%d\t%s", conn, hi, inc, in.tabOf(conn, host))
+	in.evf(func() string { return fmt.Sprintf("NS\t%s\t%d\t%d\t%s", conn, hi, inc, in.tabOf(conn, host)) })
 	return &wrapStream{ClientStream: cs, in: in, conn: conn, host: hi, inc: inc}, nil
 }
 
@@ -545,33 +686,36 @@ func (w *wrapStream) SendMsg(m interface{}) error {
 		}
 	}
 	w.in.capture()
-	evs(w.in.sc, "SB\t%s\t%d\t%d\t%s", w.conn, w.host, w.inc, sb.String())
+	w.in.dumpRound()
+	w.in.ev("SB\t%s\t%d\t%d\t%s", w.conn, w.host, w.inc, sb.String())
 	if w.in.sendFail[w.host].Load() > 0 && w.in.sendFail[w.host].Add(-1) >= 0 {
-		evs(w.in.sc, "SE\t%s\t%d\t%d\terr", w.conn, w.host, w.inc)
+		w.in.ev("SE\t%s\t%d\t%d\terr", w.conn, w.host, w.inc)
 		return errors.New("verif-sendfail")
 	}
 	err := w.ClientStream.SendMsg(m)
 	if err != nil {
-		evs(w.in.sc, "SE\t%s\t%d\t%d\terr", w.conn, w.host, w.inc)
+		w.in.ev("SE\t%s\t%d\t%d\terr", w.conn, w.host, w.inc)
 	} else {
-		evs(w.in.sc, "SE\t%s\t%d\t%d\tok", w.conn, w.host, w.inc)
+		w.in.ev("SE\t%s\t%d\t%d\tok", w.conn, w.host, w.inc)
 	}
 	return err
 }
 
 func (w *wrapStream) RecvMsg(m interface{}) error {
+	// the recv loop is back for the next message: everything it dispatched is out of the table by now
+	w.in.evf(func() string { return fmt.Sprintf("RD\t%s\t%d\t%d\t%s", w.conn, w.host, w.inc, w.in.tabOf(w.conn, hostName(w.host))) })
 	err := w.ClientStream.RecvMsg(m)
 	if err == nil && w.in.recvFail[w.host].Load() > 0 && w.in.recvFail[w.host].Add(-1) >= 0 {
 		err = errors.New("verif-recvfail") // the received message is dropped
 	}
 	if err != nil {
-		evs(w.in.sc, "RE\t%s\t%d\t%d", w.conn, w.host, w.inc)
+		w.in.ev("RE\t%s\t%d\t%d", w.conn, w.host, w.inc)
 		return err
 	}
 	if resp, ok := m.(*tikvpb.BatchCommandsResponse); ok {
 		var sb strings.Builder
 		for i, id := range resp.RequestIds {
-			p := int64(-4)
+			p := int64(-9) // an id without a response: batchRecvLoop panics on it if the id is in the table
 			if i < len(resp.Responses) {
 				p = respPayload(resp.Responses[i])
 			}
@@ -581,7 +725,7 @@ func (w *wrapStream) RecvMsg(m interface{}) error {
 			fmt.Fprintf(&sb, "%d:%d", id, p)
 		}
 		w.in.rvCount.Add(1)
-		evs(w.in.sc, "RV\t%s\t%d\t%d\t%s", w.conn, w.host, w.inc, sb.String())
+		w.in.ev("RV\t%s\t%d\t%d\t%s", w.conn, w.host, w.inc, sb.String())
 	}
 	return nil
 }
@@ -635,7 +779,7 @@ func respPay(resp *tikvrpc.Response) (int64, string) {
 
 var kindNames = []string{"rawget", "get", "empty", "cop"}
 
-var injectedPanics atomic.Int64
+var injectedPanics, injectedRecvPanics atomic.Int64
 
 // goExecutor runs scheduled callbacks on their own goroutine.
 type goExecutor struct{}
@@ -690,6 +834,9 @@ func runScenario(sc *Scenario) {
 		if sc.MaxBatch > 0 {
 			conf.TiKVClient.MaxBatchSize = sc.MaxBatch
 		}
+		if sc.NoBatch {
+			conf.TiKVClient.MaxBatchSize = 0
+		}
 		if sc.Policy != "" {
 			conf.TiKVClient.BatchPolicy = sc.Policy
 		}
@@ -699,26 +846,50 @@ func runScenario(sc *Scenario) {
 		}
 	})
 	defer restore()
-	srv := &server{sc: sc, rng: rand.New(rand.NewSource(sc.Seed)), streams: map[*srvStream]bool{}}
-	if err := srv.start(); err != nil {
-		ev("HARNESS\tserver start failed: %v", err)
-		return
+	npools := sc.Pools
+	if npools <= 0 {
+		npools = 1
 	}
-	defer srv.stop()
-	in := &injector{sc: int64(sc.ID), hostIdx: map[string]int{}, addr: srv.addr, refs: map[string]client.VerifEntryRef{}}
-	for i := 0; i < sc.NHosts; i++ {
-		in.hosts = append(in.hosts, hostName(i))
-		in.hostIdx[hostName(i)] = i
+	var srvs []*server
+	var ins []*injector
+	byTarget := map[string]*injector{}
+	for k := 0; k < npools; k++ {
+		sv := &server{sc: sc, rng: rand.New(rand.NewSource(sc.Seed + int64(k))), streams: map[*srvStream]bool{}}
+		if err := sv.start(); err != nil {
+			ev("HARNESS\tserver start failed: %v", err)
+			return
+		}
+		defer sv.stop()
+		inj := &injector{sc: int64(sc.ID), hostIdx: map[string]int{}, addr: sv.addr, refs: map[string]client.VerifEntryRef{}, srv: sv}
+		if k > 0 {
+			inj.suffix = fmt.Sprintf("@%d", k)
+		}
+		for i := 0; i < sc.NHosts; i++ {
+			inj.hosts = append(inj.hosts, hostName(i))
+			inj.hostIdx[hostName(i)] = i
+		}
+		inj.sendFail = make([]atomic.Int64, sc.NHosts)
+		inj.recvFail = make([]atomic.Int64, sc.NHosts)
+		inj.initFail = make([]atomic.Int64, sc.NHosts)
+		srvs, ins = append(srvs, sv), append(ins, inj)
+		byTarget[sv.addr] = inj
 	}
-	in.sendFail = make([]atomic.Int64, sc.NHosts)
-	in.recvFail = make([]atomic.Int64, sc.NHosts)
-	in.initFail = make([]atomic.Int64, sc.NHosts)
-	rpc := client.NewRPCClient(client.WithGRPCDialOptions(grpc.WithStreamInterceptor(in.intercept)))
-	in.rpc = rpc
+	in := ins[0]
+	dispatch := func(ctx context.Context, desc *grpc.StreamDesc, cc *grpc.ClientConn, method string, streamer grpc.Streamer, opts ...grpc.CallOption) (grpc.ClientStream, error) {
+		if inj, ok := byTarget[cc.Target()]; ok {
+			return inj.intercept(ctx, desc, cc, method, streamer, opts...)
+		}
+		return in.intercept(ctx, desc, cc, method, streamer, opts...)
+	}
+	rpc := client.NewRPCClient(client.WithGRPCDialOptions(grpc.WithStreamInterceptor(dispatch)))
+	for _, inj := range ins {
+		inj.rpc = rpc
+	}
 	defer rpc.Close()
 	p0recv, p0send := counterVal(metrics.LabelBatchRecvLoop), counterVal(metrics.LabelBatchSendLoop)
 	sp0 := atomic.LoadInt64(&client.BatchSendLoopPanicCounter)
 	inj0 := injectedPanics.Load()
+	injr0 := injectedRecvPanics.Load()
 
 	t0 := time.Now()
 	var wg sync.WaitGroup
@@ -745,9 +916,10 @@ func runScenario(sc *Scenario) {
 			if d := time.Duration(cs.StartUs)*time.Microsecond - time.Since(t0); d > 0 {
 				time.Sleep(d)
 			}
-			ctx, cancel := context.WithCancel(context.Background())
+			ctx, cancel := context.WithCancel(context.WithValue(context.Background(), client.VerifCallerKey{}, int64(c)))
 			defer cancel()
 			cancels[c].Store(cancel)
+			addr := srvs[cs.Pool%npools].addr
 			timeout := time.Duration(cs.TimeoutMs) * time.Millisecond
 			if cs.Long {
 				timeout = 30 * time.Second
@@ -764,7 +936,7 @@ func runScenario(sc *Scenario) {
 			if cs.Long {
 				mode += "-long"
 			}
-			evs(int64(sc.ID), "SUB\t%d\t%d\t%d\t%s\t%d\t%s", c, cs.Host, cs.Pri, kindNames[cs.Kind%4], cs.TimeoutMs, mode)
+			evs(int64(sc.ID), "SUB\t%d\t%d\t%d\t%s\t%d\t%s\t%d", c, cs.Host, cs.Pri, kindNames[cs.Kind%4], cs.TimeoutMs, mode, cs.Pool%npools)
 			st := time.Now()
 			var resp *tikvrpc.Response
 			var err error
@@ -776,7 +948,7 @@ func runScenario(sc *Scenario) {
 					}
 				}()
 				if !cs.Async {
-					resp, err = rpc.SendRequest(ctx, srv.addr, req, timeout)
+					resp, err = rpc.SendRequest(ctx, addr, req, timeout)
 					return
 				}
 				// asynchronous API: the call is over when the callback ran; a second invocation is a second return
@@ -799,7 +971,7 @@ func runScenario(sc *Scenario) {
 					}
 					ch <- res{r, e}
 				})
-				rpc.SendRequestAsync(actx, srv.addr, req, cb)
+				rpc.SendRequestAsync(actx, addr, req, cb)
 				got := <-ch
 				resp, err = got.r, got.e
 			}()
@@ -835,7 +1007,20 @@ func runScenario(sc *Scenario) {
 			if n <= 0 {
 				n = 1
 			}
+			srv, in := srvs[f.Pool%npools], ins[f.Pool%npools]
 			switch f.Kind {
+			case "recvpanic":
+				// the next n response batches of this store carry one id without its response: batchRecvLoop
+				// panics on it (index out of range), recovers and restarts itself on the same stream
+				srv.bad.Store(n)
+				ev("INJ\trecvpanic\t%d", n)
+			case "failpanic":
+				// the repo's own failpoint at the top of failPendingRequests
+				injectedRecvPanics.Add(n)
+				ev("INJ\tfailpanic\t%d", n)
+				if err := failpoint.Enable("tikvclient/panicInFailPendingRequests", fmt.Sprintf("%d*panic(\"verif fail-pending panic\")", n)); err != nil {
+					ev("HARNESS\tfailpoint enable failed: %v", err)
+				}
 			case "kill":
 				srv.killStreams(hostName(f.Host), false)
 			case "killall":
@@ -861,7 +1046,9 @@ func runScenario(sc *Scenario) {
 			case "initfail":
 				in.initFail[f.Host].Store(n)
 			case "close":
-				in.tabOf("0", "") // make sure the pool handle is captured before it is dropped
+				for _, inj := range ins {
+					inj.tabOf("0", "") // make sure the pool handles are captured before they are dropped
+				}
 				ev("CLOSE\tclient")
 				rpc.Close()
 			case "closeaddr":
@@ -887,7 +1074,9 @@ func runScenario(sc *Scenario) {
 		if d := lastStart + 20*time.Millisecond - time.Since(t0); d > 0 {
 			time.Sleep(d)
 		}
-		srv.drain.Store(true)
+		for _, sv := range srvs {
+			sv.drain.Store(true)
+		}
 		longDone := make(chan struct{})
 		go func() { wgLong.Wait(); close(longDone) }()
 		const drainWindow = 4 * time.Second
@@ -920,22 +1109,30 @@ func runScenario(sc *Scenario) {
 	}
 	<-faultsDone
 	failpoint.Disable("tikvclient/mockBatchClientSendDelay")
-	// quiescence: let the server answer what it still holds, wait until nothing moves any more
-	srv.drain.Store(true)
-	in.tabOf("0", "")
+	failpoint.Disable("tikvclient/panicInFailPendingRequests")
+	// quiescence: let the servers answer what they still hold, wait until nothing moves any more
+	for k := range srvs {
+		srvs[k].drain.Store(true)
+		ins[k].tabOf("0", "")
+	}
 	stable, last := 0, ""
 	for i := 0; i < 200 && stable < 4; i++ {
 		time.Sleep(5 * time.Millisecond)
-		cur := fmt.Sprintf("%d|%s", in.rvCount.Load(), snapString(in))
+		cur := ""
+		for _, inj := range ins {
+			cur += fmt.Sprintf("%d|%s;", inj.rvCount.Load(), snapString(inj))
+		}
 		if cur == last {
 			stable++
 		} else {
 			stable, last = 0, cur
 		}
 	}
-	ev("CRES\t%s", in.canceledWithValue())
-	ev("END\t%s\t%g\t%g\t%d\t%d", snapString(in), counterVal(metrics.LabelBatchRecvLoop)-p0recv, counterVal(metrics.LabelBatchSendLoop)-p0send,
-		atomic.LoadInt64(&client.BatchSendLoopPanicCounter)-sp0, injectedPanics.Load()-inj0)
+	for k := len(ins) - 1; k >= 0; k-- { // store 0 last: its END line closes the scenario
+		ins[k].ev("CRES\t%s", ins[k].canceledWithValue())
+		ins[k].ev("END\t%s\t%g\t%g\t%d\t%d\t%d", snapString(ins[k]), counterVal(metrics.LabelBatchRecvLoop)-p0recv, counterVal(metrics.LabelBatchSendLoop)-p0send,
+			atomic.LoadInt64(&client.BatchSendLoopPanicCounter)-sp0, injectedPanics.Load()-inj0, injectedRecvPanics.Load()-injr0)
+	}
 }
 
 func snapString(in *injector) string {
@@ -1133,6 +1330,105 @@ func genScenario(r *rand.Rand, id int, class string) *Scenario {
 		}
 		sc.Callers = append(sc.Callers, CallerSpec{Host: a, Kind: r.Intn(4), TimeoutMs: normalTo, CancelUs: -1, StartUs: r.Int63n(3000), SlowMs: 400})
 		sc.Faults = append(sc.Faults, Fault{AtUs: 15000, Kind: "kill", Host: a}, Fault{AtUs: 30000, Kind: "kill", Host: 1 - a})
+	case "builder": // the builder: mixed priorities (high ones bypass the limit), a small concurrency limit so that entries
+		// stay in the priority queue across rounds, callers that give up while still queued, forwarding buckets
+		sc.NHosts = 1 + r.Intn(3)
+		sc.DelayUs = 1000 + r.Int63n(6000)
+		sc.Limit = int64(1 + r.Intn(4))
+		sc.Reorder = 0.5
+		if r.Intn(2) == 0 {
+			sc.MaxBatch = uint(2 + r.Intn(6))
+		}
+		addCallers(n+6, func(i int, cs *CallerSpec) {
+			cs.Pri = []int{0, 0, 1, 5, 9, 10, 12, 16}[r.Intn(8)]
+			cs.StartUs = r.Int63n(8000)
+			cs.Async = r.Intn(4) == 0
+			switch r.Intn(4) {
+			case 0:
+				cs.CancelUs = r.Int63n(6000) // often before the entry is built
+			case 1:
+				cs.TimeoutMs = 1 + r.Intn(8)
+			}
+		})
+	case "recvpanic": // response batches with an id that lacks its response: batchRecvLoop panics between Load and deliver,
+		// restarts on the same stream; the proper response follows; sometimes the stream breaks afterwards
+		sc.NHosts = 1 + r.Intn(2)
+		sc.DelayUs = 1000 + r.Int63n(4000)
+		sc.Reorder = 0.5
+		addCallers(n+3, func(i int, cs *CallerSpec) {
+			cs.StartUs = r.Int63n(30000)
+			cs.Async = r.Intn(3) == 0
+			cs.Long = r.Intn(3) == 0 // must still be answered by the restarted loop (drain phase)
+		})
+		for k := 0; k < 1+r.Intn(3); k++ {
+			sc.Faults = append(sc.Faults, Fault{AtUs: r.Int63n(25000), Kind: "recvpanic", N: 1 + r.Intn(2)})
+		}
+		if r.Intn(2) == 0 {
+			sc.Faults = append(sc.Faults, Fault{AtUs: 10000 + r.Int63n(20000), Kind: "kill", Host: r.Intn(sc.NHosts)})
+		}
+	case "failpanic": // panic at the start of failPendingRequests (repo failpoint) while requests are pending on the broken
+		// stream: nothing may be lost, the restarted loop fails them on the next Recv error
+		sc.NHosts = 1 + r.Intn(2)
+		sc.DelayUs, sc.Reorder = 200, 0
+		tgt := r.Intn(sc.NHosts)
+		addCallers(2+r.Intn(5), func(i int, cs *CallerSpec) {
+			cs.StartUs = r.Int63n(5000)
+			cs.SlowMs = 300
+			if i%2 == 0 {
+				cs.Host = tgt
+			}
+			switch r.Intn(3) {
+			case 0:
+				cs.Long = true
+			case 1:
+				cs.Long, cs.Async = true, true
+			}
+		})
+		sc.Faults = append(sc.Faults, Fault{AtUs: 15000, Kind: "failpanic", N: 1}, Fault{AtUs: 20000, Kind: "kill", Host: tgt})
+	case "twopools": // two stores (own server, address, pool, id source) used concurrently: both hand out ids 1,2,3,... and use
+		// the same forwarded-host names; a response must never cross over
+		sc.Pools = 2
+		sc.NHosts = 1 + r.Intn(3)
+		sc.DelayUs = 1000 + r.Int63n(8000)
+		sc.Dup = []float64{0, 0.2}[r.Intn(2)]
+		addCallers(n+6, func(i int, cs *CallerSpec) { cs.Pool = i % 2; cs.StartUs = r.Int63n(6000); cs.Async = r.Intn(4) == 0 })
+		for k := 0; k < r.Intn(3); k++ {
+			sc.Faults = append(sc.Faults, Fault{AtUs: 2000 + r.Int63n(10000), Kind: []string{"kill", "recvfail", "sendfail"}[r.Intn(3)], Host: r.Intn(sc.NHosts), Pool: r.Intn(2), N: 1})
+		}
+	case "nonbatch": // MaxBatchSize = 0: sendRequest takes the unary path (tikvrpc.CallRPC with a time-out context); time-outs,
+		// cancellation, server restart and Close while calls are pending; SendRequestAsync must fail at once
+		sc.NoBatch = true
+		sc.NHosts = 1 + r.Intn(2)
+		addCallers(n+4, func(i int, cs *CallerSpec) {
+			cs.Kind = []int{0, 1, 3}[r.Intn(3)]
+			cs.StartUs = r.Int63n(20000)
+			cs.SlowMs = []int{0, 5, 40, 200}[r.Intn(4)]
+			cs.Async = r.Intn(6) == 0
+			switch r.Intn(4) {
+			case 0:
+				cs.CancelUs = r.Int63n(30000)
+			case 1:
+				cs.TimeoutMs = 5 + r.Intn(60)
+			default:
+				cs.TimeoutMs = 400
+			}
+			if r.Intn(8) == 0 { // the server sits on the call far beyond its time-out
+				cs.SlowMs, cs.TimeoutMs, cs.CancelUs, cs.Async = 7000, 40+r.Intn(80), -1, false
+			}
+		})
+		switch r.Intn(3) {
+		case 0:
+			sc.Faults = append(sc.Faults, Fault{AtUs: 5000 + r.Int63n(20000), Kind: []string{"close", "closeaddr"}[r.Intn(2)]})
+		case 1:
+			sc.Faults = append(sc.Faults, Fault{AtUs: 5000 + r.Int63n(20000), Kind: "restart", N: 5 + r.Intn(30)})
+		}
+	case "asyncclose": // regression class for fix 000f10e: SendRequestAsync calls without deadline racing with RPCClient.Close --
+		// an entry on batchCommandsCh when batchSendLoop returns (or enqueued afterwards) must be failed, not orphaned
+		sc.Callers = append(sc.Callers, CallerSpec{Kind: 0, TimeoutMs: normalTo, CancelUs: -1, StartUs: 1000})
+		for i := 0; i < 300; i++ {
+			sc.Callers = append(sc.Callers, CallerSpec{Kind: i % 4, TimeoutMs: normalTo, CancelUs: -1, StartUs: 29500 + r.Int63n(1200), Async: true, Long: true})
+		}
+		sc.Faults = append(sc.Faults, Fault{AtUs: 30000, Kind: "close"})
 	case "sendpanic": // the send loop panics and restarts while slow requests with small ids are in flight; later
 		// requests stay in flight long enough to meet the responses of the earlier ones
 		sc.NHosts = 1 + r.Intn(2)
@@ -1199,10 +1495,11 @@ func main() {
 	}
 	tier := os.Getenv("VERIF_TIER")
 	r := rand.New(rand.NewSource(seed*7919 + 17))
-	classes := []string{"plain", "forward", "streamfail", "cancel", "close", "staleepoch", "multiconn", "rebreak", "sendpanic", "staleasync"}
-	rounds := 10
+	classes := []string{"plain", "forward", "streamfail", "cancel", "close", "staleepoch", "multiconn", "rebreak", "sendpanic", "staleasync",
+		"builder", "recvpanic", "failpanic", "twopools", "nonbatch", "asyncclose"}
+	rounds := 8
 	if tier == "thorough" {
-		rounds = 150
+		rounds = 100
 	}
 	if v, _ := strconv.Atoi(os.Getenv("VERIF_ROUNDS")); v > 0 {
 		rounds = v
